@@ -26,6 +26,7 @@ Inductive beh :=
 | BShortErr    (* return an error of its own without calling next *)
 | BAlter       (* append a token to the request, call next, append a token to an ok result *)
 | BErrAfter    (* call next, then replace whatever came back by an error of its own *)
+| BShortClosed (* return core.ErrClosed (code 9101) without calling next *)
 | BCancel.     (* call next with the context replaced by a cancelled one, return what comes back *)
 
 (* [code] is what reflect.ValueOf(h).Pointer() returns for the func value: the code
@@ -82,8 +83,23 @@ Definition meth_mark (r : req) : option N :=
   | m :: _ => if N.eqb m 8001 || N.eqb m 8002 then Some m else None
   | [] => None
   end.
-Definition payload (r : req) : req :=
+Definition strip_meth (r : req) : req :=
   match meth_mark r with Some _ => tl (strip_ctx r) | None => strip_ctx r end.
+(* a fault scripted for the innermost client layer (the transport fails the request): the marker
+   after the method marker.  7001 core.ErrClosed, 7002 core.ErrTimeout, 7003 context.Canceled,
+   7004 context.DeadlineExceeded (both with the call's own context still live),
+   7005 core.InvalidResponseError, 7006 a plain error, 7007 the transport panics. *)
+Definition fault_mark (r : req) : option N :=
+  match strip_meth r with
+  | m :: _ => if N.leb 7001 m && N.leb m 7007 then Some m else None
+  | [] => None
+  end.
+Definition fault_res (f : N) : res :=
+  if N.eqb f 7001 then RErr 9101 else if N.eqb f 7002 then RErr 9102
+  else if N.eqb f 7003 then RErr 9001 else if N.eqb f 7004 then RErr 9002
+  else if N.eqb f 7005 then RErr 9103 else if N.eqb f 7006 then RErr 55 else RPanic.
+Definition payload (r : req) : req :=
+  match fault_mark r with Some _ => tl (strip_meth r) | None => strip_meth r end.
 Definition core_res (r : req) : res :=
   match meth_mark r with
   | None => ROk (payload r ++ [99%N])
@@ -100,6 +116,7 @@ Definition pre (h : handler) (r : req) : req + res :=
   | BCancel => inl (cancel_ctx r)
   | BShortOk => inr (ROk [(inst h + 200)%N])
   | BShortErr => inr (RErr (inst h))
+  | BShortClosed => inr (RErr 9101)
   end.
 
 Definition post (h : handler) (x : res) : res :=
@@ -156,7 +173,10 @@ Section Wrap.
        LSI  Service.Execute: the method's own error. *)
   Definition cut (L : layer) (r : req) : option res :=
     match L with
-    | LCO => match ctx_mark r with Some m => Some (RErr m) | None => None end
+    | LCO => match fault_mark r with
+             | Some f => Some (fault_res f)      (* the scripted transport fault *)
+             | None => match ctx_mark r with Some m => Some (RErr m) | None => None end
+             end
     | _ => None
     end.
   Definition back (L : layer) (x : res) : res :=
